@@ -260,7 +260,18 @@ type c18Item struct {
 	prefix []int
 }
 
-func (it c18Item) group() string { return fmt.Sprintf("length %d %s", it.n, it.kind) }
+func (it c18Item) group() string {
+	if it.kind == "runs" {
+		return fmt.Sprintf("runs of three symbols, length %d..%d", c18RunsLo, it.n)
+	}
+	return fmt.Sprintf("length %d %s", it.n, it.kind)
+}
+
+// vectors longer than the full enumeration reaches, in run-length form (rounding that needs many addends):
+// three runs over this sub-alphabet
+var c18RunsAlpha = []float32{0, 1, -1, float32(math.Inf(-1)), 1 + 1.0/(1<<23)}
+
+const c18RunsLo = 6
 
 type c18Stats struct {
 	evals, calls, groups, nontrivGroups, errOK int64
@@ -392,6 +403,43 @@ func c18RefOf(c c18Case) *c18Ref {
 func c18RunItem(it c18Item, sub *evid.Run) bool {
 	w := newC18Worker()
 	var st c18Stats
+	if it.kind == "runs" {
+		// long vectors in run-length form: a^i b^j c^k with i,j,k >= 1 and lo <= i+j+k <= hi (it.n = hi, lo = c18RunsLo)
+		complete := true
+		a, b, c := it.alpha[it.prefix[0]], it.alpha[it.prefix[1]], it.alpha[it.prefix[2]]
+	outer:
+		for n := c18RunsLo; n <= it.n; n++ {
+			for i := 1; i <= n-2; i++ {
+				for j := 1; i+j <= n-1; j++ {
+					if c18Stop.Load() || sub.Expired() {
+						c18Stop.Store(true)
+						complete = false
+						break outer
+					}
+					logits := make([]float32, 0, n)
+					for x := 0; x < n; x++ {
+						switch {
+						case x < i:
+							logits = append(logits, a)
+						case x < i+j:
+							logits = append(logits, b)
+						default:
+							logits = append(logits, c)
+						}
+					}
+					c18Vector(sub, w, logits, false, &st)
+					sub.Add("vectors", 1)
+					sub.Add("run_length_vectors", 1)
+				}
+			}
+		}
+		sub.Add("evaluations", st.evals)
+		sub.Add("sample_calls", st.calls)
+		sub.Add("parameter_groups", st.groups)
+		sub.Add("nontrivial_parameter_groups", st.nontrivGroups)
+		sub.Add("accepted_error_returns_no_finite_logit_or_weird", st.errOK)
+		return complete
+	}
 	A := len(it.alpha)
 	idx := make([]int, it.n)
 	copy(idx, it.prefix)
@@ -518,7 +566,7 @@ func ZZVerifC18() {
 	}
 	r.SetDeadline(budget)
 
-	r.Rule("every logit vector (ordered, with repetition) of length 1..base_max_len over the base alphabet (ties, -Inf, +-3e38, 88, 1 vs 1+2^-23) and of length 1..ext_max_len over base+ext symbols (-88, 1e-45, -0, 2^127) x temperature x top-k {-1,0,1,2,n,n+1} x top-p x min-p x {6 exact RNG draws r=k/2^24 through a replaced Sampler.rng, 3 seeds through the real NewSampler (two fresh samplers x 8 calls)}; every call goes through the real NewSampler(...).Sample(...). A separate sub-run covers every vector that contains +Inf or NaN with the weak oracle. One evaluation = one (vector, parameters, draw) call or one (vector, parameters, seed) pair of 8-call sequences. Non-trivial = the reference's admissible set is a non-empty proper subset of the vocabulary (filters / arg-max really exclude a token); distinct_nontrivial counts distinct logit vectors (main run only) having such a parameter combination, nontrivial_parameter_groups counts the (vector, parameters) combinations; +Inf/NaN vectors are counted in distinct_weird_vector.")
+	r.Rule("every logit vector (ordered, with repetition) of length 1..base_max_len over the base alphabet (ties, -Inf, +-3e38, 88, 1 vs 1+2^-23) and of length 1..ext_max_len over base+ext symbols (-88, 1e-45, -0, 2^127) and, beyond those lengths, every vector a^i b^j c^k (three runs, i,j,k >= 1, total length 6..runs_max_len) over {0, 1, -1, -Inf, 1+2^-23} x temperature x top-k {-1,0,1,2,n,n+1} x top-p x min-p x {6 exact RNG draws r=k/2^24 through a replaced Sampler.rng, 3 seeds through the real NewSampler (two fresh samplers x 8 calls)}; every call goes through the real NewSampler(...).Sample(...). A separate sub-run covers every vector that contains +Inf or NaN with the weak oracle. One evaluation = one (vector, parameters, draw) call or one (vector, parameters, seed) pair of 8-call sequences. Non-trivial = the reference's admissible set is a non-empty proper subset of the vocabulary (filters / arg-max really exclude a token); distinct_nontrivial counts distinct logit vectors (main run only) having such a parameter combination, nontrivial_parameter_groups counts the (vector, parameters) combinations; +Inf/NaN vectors are counted in distinct_weird_vector.")
 	r.Assume(
 		"admissible set, float64 reference: top-k = tokens whose logit >= the k-th largest (boundary ties all admissible; k<=0 or k>=n keeps all); probabilities = softmax(logit/max(temperature,1e-7)) over that set (1e-7 is the documented temperature floor; it only widens the sets); top-p = shortest descending-probability prefix whose mass exceeds p; min-p = prob >= min_p * max prob; filters compose in the sampler's order",
 		"tolerance: a token is reported as outside top-p / min-p only if it fails for every float32 rounding of logit/temperature and of the subtraction of the maximum (envelope 2^-22*(|z|+|zmax|) on the scaled logits) and then by a further relative margin of 1e-4; near-ties are therefore never judged",
@@ -546,6 +594,19 @@ func ZZVerifC18() {
 				}
 			}
 			rec(nil)
+		}
+	}
+	runsHi := 10
+	if thorough {
+		runsHi = 16
+	}
+	for a := range c18RunsAlpha {
+		for b := range c18RunsAlpha {
+			for c := range c18RunsAlpha {
+				if a != b && b != c {
+					items = append(items, c18Item{kind: "runs", n: runsHi, alpha: c18RunsAlpha, prefix: []int{a, b, c}})
+				}
+			}
 		}
 	}
 	subs := make([]*evid.Run, len(items))
@@ -582,6 +643,7 @@ func ZZVerifC18() {
 	}
 	r.Extra("bounds", map[string]any{
 		"base_alphabet":            c18Fs(c18Base),
+		"runs_max_len":             runsHi,
 		"base_max_len":             maxLen["base"],
 		"ext_additional_symbols":   c18Fs(c18Extra),
 		"ext_max_len":              maxLen["ext"],
